@@ -33,7 +33,10 @@ func (c *Ctx) runUnmarkRemarked(r *Report, rule string, inPkg func(string) bool)
 				for _, cl := range ts.Body.List {
 					for _, e := range cl.(*ast.CaseClause).List {
 						if t, ok := fi.Pkg.Info.Types[e]; ok {
-							if nm := irTypeName(derefType(t.Type)); len(nm) > 4 && nm[:4] == "Stmt" {
+							// a marker of ROOTS: it has an arm for the return statement (a
+							// walker that only follows calls and nested blocks is a
+							// propagation step, not a re-marking of what stays)
+							if nm := irTypeName(derefType(t.Type)); nm == "StmtReturn" {
 								found = true
 							}
 						}
